@@ -163,6 +163,11 @@ type Reply struct {
 	Text    bool
 	TextVal *respVal // DATA item of a lock reply
 	TextRaw string   // a reply that is not a lock result (error line ...)
+	// maybeOf: when this reply arrived, an earlier request of the same connection was in the window of
+	// finding F8 (granted, its hold already ended by somebody else, its SUCCED reply not yet built) and
+	// the request this reply names was sent after that: the reply may be that request's, built from the
+	// recycled command object
+	maybeOf *ReqRec
 }
 
 type ReqRec struct {
@@ -178,6 +183,14 @@ type ReqRec struct {
 	done    chan struct{}
 	lost    bool // the connection died before a terminal reply could arrive
 	excused bool // its reply was delivered under a foreign RequestId (finding F8)
+	closed  bool // done has been closed
+}
+
+func (r *ReqRec) finish() {
+	if !r.closed {
+		r.closed = true
+		close(r.done)
+	}
 }
 
 func (d *DataSpec) String() string {
@@ -225,6 +238,30 @@ type History struct {
 	atRisk func(conn int) *ReqRec
 }
 
+// attributeRecycled: the first reply delivered under r's id was not r's own (the monitor found that it
+// is not a permitted answer to r) while rep.maybeOf was in the F8 window: it is booked as that
+// request's reply, built from the recycled command object; r's own reply is still to come.
+func (h *History) attributeRecycled(r *ReqRec, rep *Reply) bool {
+	g := rep.maybeOf
+	if g == nil || g.excused || len(g.Replies) > 0 {
+		return false
+	}
+	for i := range r.Replies {
+		if r.Replies[i].Ev == rep.Ev {
+			st := r.Replies[i]
+			st.StrayRid, st.Recycled, st.maybeOf = r.Id, true, nil
+			r.Replies = append(r.Replies[:i], r.Replies[i+1:]...)
+			g.excused = true
+			g.finish()
+			h.stray = append(h.stray, st)
+			h.w.probe("reply_from_recycled_command")
+			h.w.logf("R reattributed: the reply under the id of c%d#%d (result %d) is the reply of c%d#%d, built from the recycled command object", r.Client, r.Idx, st.Result, g.Client, g.Idx)
+			return true
+		}
+	}
+	return false
+}
+
 func newHistory(w *World) *History { return &History{w: w, reqs: map[[16]byte]*ReqRec{}} }
 
 func (h *History) nextEv() uint64 { h.ev++; return h.ev }
@@ -253,7 +290,7 @@ func (h *History) reply(conn int, rid [16]byte, rep Reply) {
 				if g := h.atRisk(conn); g != nil {
 					rep.Recycled = true
 					if !g.excused && len(g.Replies) == 0 {
-						close(g.done) // its reply went out under a foreign RequestId: the client must not wait for it
+						g.finish() // its reply went out under a foreign RequestId: the client must not wait for it
 					}
 					g.excused = true
 					h.w.probe("reply_from_recycled_command")
@@ -270,10 +307,13 @@ func (h *History) reply(conn int, rid [16]byte, rep Reply) {
 			if !legitSecond {
 				// finding F8 with the recycled command object re-used by the same connection: the
 				// reply of an at-risk request of this connection arrives under this request's id
-				if g := h.atRisk(conn); g != nil && g != r {
+				if g := h.atRisk(conn); g != nil && g != r && r.Replies[0].maybeOf != nil {
+					// which of the two replies is r's own is for the monitor to say
+					rep.maybeOf = g
+				} else if g != nil && g != r {
 					rep.StrayRid, rep.Recycled = rid, true
 					if !g.excused && len(g.Replies) == 0 {
-						close(g.done)
+						g.finish()
 					}
 					g.excused = true
 					h.w.probe("reply_from_recycled_command")
@@ -281,6 +321,11 @@ func (h *History) reply(conn int, rid [16]byte, rep Reply) {
 					h.w.logf("R stray conn=%d rid=%x res=%d recycled=%v (second reply under an id of the same connection)", conn, rid, rep.Result, rep.Recycled)
 					return
 				}
+			}
+		}
+		if len(r.Replies) == 0 && h.atRisk != nil {
+			if g := h.atRisk(conn); g != nil && g != r && len(g.Replies) == 0 && g.InvEv < r.InvEv {
+				rep.maybeOf = g
 			}
 		}
 		r.Replies = append(r.Replies, rep)
@@ -293,7 +338,7 @@ func (h *History) reply(conn int, rid [16]byte, rep Reply) {
 			f(r, &r.Replies[len(r.Replies)-1])
 		}
 		if len(r.Replies) == 1 && !r.excused {
-			close(r.done)
+			r.finish()
 		}
 	})
 }
